@@ -4,7 +4,7 @@ import AbtemVerif.Gen.IntegralsCache
 open AbtemVerif AbtemVerif.Proto AbtemVerif.Cache
 
 /- request: `run <sf|table> <reqs: sym,sym,…|_> <grid0> <op> <op> …`
-     grid = `gx,gy,sx,sy` (sx, sy exact rationals), op = `b` (eager build on the object) | `c` (lazy build on a deep copy) | `g:<grid>` (grid after a gpts/sampling setter)
+     grid = `gx,gy,sx,sy` (sx, sy exact rationals), op = `b` (eager build on the object) | `c` (lazy build on a deep copy) | `l:K` (lazy, K ensemble blocks sharing one copy) | `e:K` (eager, K blocks, a copy each) | `g:<grid>` (grid after a gpts/sampling setter)
    reply  : `ok <build>;<build>;…` (`~` when no build), build = `tag:M|H,…` (`_` when the build asks for nothing),
             tag = what `compute` was called with: `Sym@gxxgy@sxxsy` (scattering factor) or `Sym@sxxsy` (integral table)
             `bad-op` for malformed requests -/
@@ -20,7 +20,9 @@ def grid? (s : String) : Option Grid :=
 
 def op? (s : String) : Option (Op Grid) :=
   if s = "b" then some .build
-  else if s = "c" then some .buildCopy
+  else if s = "c" then some (.buildShared 1)
+  else if s.startsWith "l:" then (parseNat? (s.drop 2).toString).map .buildShared
+  else if s.startsWith "e:" then (parseNat? (s.drop 2).toString).map .buildCopies
   else if s.startsWith "g:" then (grid? (s.drop 2).toString).map .setGrid
   else none
 
